@@ -70,32 +70,39 @@ CHECKS["C05"] = dict(
          "Tied by step-by-step comparison and by an exactness oracle over white-box snapshots around every command.",
     note=MBOX_NOTE, ref="6/C05")
 CHECKS["C13"] = dict(
-    technique="Coq proofs about the resync of the world model (deliveries appended, sessions told in order, Seen iff not unseen) + correspondence with an external MH agent + .mh_sequences oracle",
+    technique="Coq proofs about the resync of the world model (deliveries appended, sessions told in order, Seen iff not unseen) and about the content written to / derived from .mh_sequences (Model/MhSeq.v, membership characterisations) + correspondence with an external MH agent and with the real Mailbox sequence methods + .mh_sequences oracle",
     text="Theorems: messages delivered by an MH agent are appended in MH-number order with UIDs >= the old UIDNEXT and \\Recent, "
          "existing messages untouched, every selected session is told in FIFO order; \\Seen iff not in `unseen` on every "
          "message of every reachable world; removal is exact. The .mh_sequences clause is decided on the implementation: the "
          "file is read as an MH tool would after every command and compared with what the IMAP sessions see; also on "
          "histories with deliveries the server cannot see yet (same second as its last look) and with deliveries injected "
-         "while a command is being carried out (after admission, before it writes .mh_sequences).",
-    note=MBOX_NOTE + " The textual content of .mh_sequences is not in the model (oracle on the real file); deliveries the "
+         "while a command is being carried out (after admission, before it writes .mh_sequences). Model/MhSeq.v models "
+         "Mailbox.set_sequences_in_folder and _get_sequences_update_seen as set computations: proved for all inputs that the dict "
+         "handed to MH.set_sequences lists every key the server knows exactly as the server has it, keeps what an MH tool said about "
+         "deliveries not taken in yet, forgets removed keys and invents nothing; that on reading Seen = messages minus unseen, Recent "
+         "gains the new keys and every other sequence is untouched. Tied by running the real methods on generated inputs.",
+    note=MBOX_NOTE + " The file format of .mh_sequences is stdlib mailbox.MH (agreement of world model and file: oracle on the real file); deliveries the "
          "server has not noticed and deliveries inside a command are outside the model (implementation-side oracles only).",
     category="proof", ref="6/C13")
 CHECKS["C12"] = dict(
-    technique="Coq proof of the persistence codec round trip and of restart-as-identity on the world model; observe/restart/observe correspondence on the real server",
+    technique="Coq proof of the persistence codec round trip (on run lists and on the persisted text itself) and of restart-as-identity on the world model; correspondence on the text (valid and malformed) and observe/restart/observe correspondence on the real server",
     text="Theorems: expand(compact l) = l for every strictly ascending list (the persisted form of UID lists, message keys "
-         "and sequences); in the world model a restart keeps every mailbox (UIDVALIDITY, UIDNEXT, messages, UIDs, order, "
+         "and sequences), on run lists and on the TEXT (Model/CodecText.v models sorted/groupby/join/strip/split/isdigit/int on "
+         "bytes): expand_text (compact_text l) = Some l for non-negative keys, texts are injective, hold only digits, commas and "
+         "dashes, and whatever is read back is strictly ascending; in the world model a restart keeps every mailbox (UIDVALIDITY, UIDNEXT, messages, UIDs, order, "
          "flags) and the C01/C02 invariants. That the real restart is that step is decided per run: everything a client can "
          "observe through LIST/LSUB/STATUS/UID FETCH is recorded before shutdown and after restart on generated histories "
          "(sparse UIDs, packing, keywords, placeholders, renames, subscriptions, pending deliveries) and compared.",
     note=TB + "Modelled not verified: SQLite, the commit discipline of each command (decided by the observe/restart/observe runs), "
-         "the decimal text of the persisted lists (Python str/int).", ref="6/C12")
+         "int() outside the alphabet {0-9 , -} (white space, sign, underscores) and the 4300-digit limit of str/int.", ref="6/C12")
 CHECKS["C20"] = dict(
-    technique="Coq proof over generated dot_stuff (py2v) + hand model of the POP3 session tied by differential correspondence against the real POP3ClientProxy/POP3CommandHandler",
+    technique="Coq proof over generated dot_stuff and end_multiline (py2v) + hand model of the POP3 session tied by differential correspondence against the real POP3ClientProxy/POP3CommandHandler",
     text="Proof: for all byte strings (stuffing, un-stuffing, framing of the generated dot_stuff) and for all sequences of POP3 "
          "commands interleaved with IMAP appends/expunges/packs on the model (snapshot stability, UIDL = IMAP UID, QUIT removes "
          "exactly the marked messages that still exist, RSET/drop keep everything, announced size = delivered octets); "
-         "model = code by per-run differential testing.",
-    note=TB + "Model/Pop3M.v is hand-written (end_multiline, _valid_msg_num, lazy size cache, QUIT) and tied only by correspondence; "
+         "model = code by per-run differential testing; the model's terminator is proved equal to the generated end_multiline, and the "
+         "wire round trip is stated entirely on generated code.",
+    note=TB + "Model/Pop3M.v is hand-written (_valid_msg_num, lazy size cache, QUIT) and tied only by correspondence; "
          "oracles of the model: the e-mail library's renderings of a message, Python's int() on arguments, Mailbox.expunge/append/"
          "pack as atomic INBOX updates (C05/C02/C13), UIDs increasing and never reused (C02); commands atomic (QUIT's expunge "
          "bypassing the mailbox queue is C10); LIST/UIDL multi-line framing is checked by a strict tokenizer, not proved.", ref="6/C20")
@@ -171,7 +178,7 @@ CHECKS["C16"] = dict(
     note=TB + "PARTIAL by nature: Python's email parser/generator is an oracle (hdr/body universally quantified, decomposition "
          "measured); 'lines end in CRLF' inside the text and APPEND fidelity are measured, not proved. Four known findings.", ref="6/C16")
 CHECKS["C07"] = dict(
-    technique="Coq round-trip/no-raw-specials/balance/completeness theorems of the string encoder and line assemblers against an independent reader + formatter-level and end-to-end differential checks through the real IMAPClientProxy with a strict response parser",
+    technique="Coq round-trip/no-raw-specials/balance/completeness theorems of the string encoder (proved equal to utils.imap_string as regenerated from the source by py2v) and line assemblers against an independent reader + formatter-level and end-to-end differential checks through the real IMAPClientProxy with a strict response parser",
     text="Theorems for all byte lists: decoding enc_string gives back the value (quoted, or literal with exact count for CR/LF/NUL); "
          "the quoted form has no raw specials; envelopes, address lists, parameter lists, literals are balanced; LIST/LSUB/STATUS/"
          "SEARCH/FETCH lines and NO/BAD/exception tagged lines are complete CRLF-terminated responses. Tie: the real encoders and "
@@ -249,7 +256,7 @@ m = {
               "source_commits": [], "add_only": True},
     "engines": [
         {"name": "coq", "path": "/verif/coq", "serves_properties": sorted(CHECKS), "kind_free_text": "Coq 8.16.1 development: Base, Gen (regenerated), Spec, Model, Proofs, Properties"},
-        {"name": "py2v", "path": "/verif/tools/py2v.py", "serves_properties": ["C15", "C18", "C20", "C04"], "kind_free_text": "fail-closed Python-to-Gallina translator for pure functions and constant tables"},
+        {"name": "py2v", "path": "/verif/tools/py2v.py", "serves_properties": ["C15", "C18", "C20", "C04", "C07"], "kind_free_text": "fail-closed Python-to-Gallina translator for pure functions and constant tables"},
         {"name": "harness", "path": "/verif/harness", "serves_properties": sorted(CHECKS), "kind_free_text": "in-process driver of the real asimap classes under a virtual clock; correspondence and failing-input search"},
     ],
     "checks": checks,
